@@ -166,3 +166,4 @@ Print Assumptions C01_history_inv.
 (* Non-vacuity: a concrete non-trivial state meets the hypotheses. *)
 Example C01_inv_holds_somewhere : Inv (mkbuf [97; 10; 30028; 98] 2).
 Proof. unfold Inv; cbn; split; discriminate. Qed.
+Print Assumptions C01_inv_holds_somewhere.
